@@ -32,7 +32,7 @@ impl Monitor for C11 {
 		"C11"
 	}
 	fn rule(&self) -> String {
-		"C01's well-formed replay space (a sixth of the generated files additionally carry one unknown event with a 16-64 KiB payload, or junk after Game End inside the raw element); each file is followed by random trailing garbage after its closing brace (which must NOT be hashed) and read with compute_hash through the instrumented source under fragmentation schedules {whole, 1-byte, fixed 2/3/7/64/4096 and two drawn from {15,16,127..129,255..257,511,512,1000,1024,8191..8193,65536}, random 1..5, random 1..300, whole reads with every 2nd/3rd/7th/50th call answered by ErrorKind::Interrupted, every two-piece split (every 3rd file <= 3 KB in quick; every 2nd file <= 12 KB in thorough; 64 random splits otherwise)} x skip-frames {off, on (finished files only)}. Oracle: hash == 'xxh3:' + 16 lowercase hex digits of the one-shot xxh3_64 over exactly the bytes the counting source delivered, which must equal the file through its closing brace; identical across schedules and skip on/off; None when hashing is not requested; unchanged by a .slpp round trip. One evaluation = one read. distinct = workload classes x schedule.".into()
+		"C01's well-formed replay space (a sixth of the generated files additionally carry one unknown event with a 16-64 KiB payload, or junk after Game End inside the raw element); each file is followed by random trailing garbage after its closing brace (which must NOT be hashed) and read with compute_hash through the instrumented source under fragmentation schedules {whole, 1-byte, fixed 2/3/7/64/4096 and two drawn from {15,16,127..129,255..257,511,512,1000,1024,8191..8193,65536}, random 1..5, random 1..300, whole reads with every 2nd/3rd/7th/50th call answered by ErrorKind::Interrupted, every two-piece split (every 3rd file <= 3 KB in quick; every 2nd file <= 12 KB in thorough; 64 random splits otherwise)} x skip-frames {off, on (finished files only)}. Oracle: hash == 'xxh3:' + 16 lowercase hex digits of the one-shot xxh3_64 over exactly the bytes the counting source delivered, which must equal the file through its closing brace; identical across schedules and skip on/off; None when hashing is not requested; unchanged by a .slpp round trip. Every third hashed read is preceded on the same thread by a hashed read of a truncated copy (which fails part-way); its bytes must not reach the next digest. One evaluation = one read. distinct = workload classes x schedule.".into()
 	}
 	fn assumptions(&self) -> Vec<String> {
 		vec!["the XXH3-64 digest function (xxhash-rust one-shot API) is trusted; peppi uses the streaming API".into()]
@@ -117,6 +117,15 @@ impl Monitor for C11 {
 					continue;
 				}
 				out.evals += 1;
+				// history: every third evaluation is preceded, on this thread, by a hashed read that
+				// fails part-way (a truncated copy); what it consumed must not reach the next digest
+				if (idx + out.evals as usize) % 3 == 0 && bytes.len() > 40 {
+					let cut = 20 + (idx * 7919 + out.evals as usize * 104729) % (bytes.len() - 21);
+					match common::slp_read(&bytes[..cut], skip, true) {
+						Err(_) => out.count("failed_hashed_read_before_this_one", 1),
+						Ok(_) => out.count("truncated_copy_accepted_before_this_one", 1),
+					}
+				}
 				// every 4th case reads from a stream that is not at offset 0 (junk prefix before the file)
 				let src = if idx % 4 == 1 { Src::new(data.clone(), pol.clone()).with_prefix(1 + idx % 513) } else { Src::new(data.clone(), pol.clone()) };
 				let stats = src.stats();
